@@ -65,6 +65,8 @@ def derived_schema(ver):
  <xs:simpleType name="u"><xs:union memberTypes="small xs:boolean word"/></xs:simpleType>
  <xs:simpleType name="us"><xs:union memberTypes="xs:int xs:string"/></xs:simpleType>
  <xs:simpleType name="umix"><xs:union memberTypes="small"><xs:simpleType><xs:restriction base="xs:boolean"/></xs:simpleType><xs:simpleType><xs:restriction base="xs:token"><xs:minLength value="2"/><xs:maxLength value="4"/></xs:restriction></xs:simpleType></xs:union></xs:simpleType>
+ <xs:simpleType name="idu"><xs:union memberTypes="xs:int xs:date xs:duration"/></xs:simpleType>
+ <xs:simpleType name="uenum"><xs:restriction base="idu"><xs:enumeration value="5"/><xs:enumeration value="2000-01-01"/><xs:enumeration value="P1D"/></xs:restriction></xs:simpleType>
  <xs:simpleType name="twoWords"><xs:restriction base="us"><xs:pattern value="[a-z]+ [a-z]+|[0-9]+"/></xs:restriction></xs:simpleType>
  <xs:simpleType name="lead"><xs:restriction base="us"><xs:pattern value="  [a-z]+|[0-9]+"/></xs:restriction></xs:simpleType>
  <xs:simpleType name="twoShort"><xs:restriction base="twoWords"><xs:pattern value=".{{1,5}}"/></xs:restriction></xs:simpleType>
@@ -83,7 +85,7 @@ def derived_schema(ver):
  <xs:element name="ilist" type="ilist"/><xs:element name="ilist2" type="ilist2"/><xs:element name="u" type="u"/><xs:element name="money" type="money"/>
  <xs:element name="durs" type="durs"/><xs:element name="stamps" type="stamps"/><xs:element name="ien" type="ien"/><xs:element name="qn23" type="qn23"/><xs:element name="qn2" type="qn2"/><xs:element name="tok23" type="tok23"/>
  <xs:element name="code3" type="code3"/><xs:element name="price2" type="price2"/><xs:element name="pt3" type="pt3"/><xs:element name="umix" type="umix"/><xs:element name="twoWords" type="twoWords"/><xs:element name="lead" type="lead"/>
- <xs:element name="strs2" type="strs2"/><xs:element name="fmax" type="fmax"/><xs:element name="dpos" type="dpos"/><xs:element name="twoShort" type="twoShort"/><xs:element name="twoShortA" type="twoShortA"/></xs:schema>''')
+ <xs:element name="uenum" type="uenum"/><xs:element name="strs2" type="strs2"/><xs:element name="fmax" type="fmax"/><xs:element name="dpos" type="dpos"/><xs:element name="twoShort" type="twoShort"/><xs:element name="twoShortA" type="twoShortA"/></xs:schema>''')
 
 
 def items(t): return [x for x in t.split(' ') if x]
@@ -111,6 +113,7 @@ REF = {
     'qn2': lambda t: len(items(t)) == 2 and all(re.fullmatch(r'[A-Za-z_][\w.-]*', x) for x in items(t)),
     'tok23': lambda t: 2 <= len(items(t)) <= 3 and all(re.fullmatch(r'[\w.:-]+', x) for x in items(t)),
     'strs2': lambda t: len(items(t)) == 2,
+    'uenum': lambda t: (isint(t) and int(t) == 5) or t in ('2000-01-01', 'P1D'),
     # NaN is incomparable: it satisfies no bound facet
     'fmax': lambda t: isfloat(t) and t != 'NaN' and float(t.replace('INF', 'inf')) <= 10,
     'dpos': lambda t: isfloat(t) and t != 'NaN' and float(t.replace('INF', 'inf')) > 0,
@@ -136,13 +139,13 @@ REF = {
 UNION_DECODE = lambda t: int(t) if REF['small'](t) else (t in ('true', '1')) if t in ('true', 'false', '1', '0') else t
 DVALUES = ['P1Y0M PT60S', 'P13M  P1DT24H', 'PT1.50S', 'P1Y', '2020-01-01T24:00:00 2020-01-01T10:00:00+00:00', '2020-01-01T00:00:00.120', '2020-01-01T00:00:00Z']
 VALUES = ['ab cd', 'ab  cd', ' ab cd', 'ab cd ', '  ab', ' ab', '12', ' 12 ', 'ab', '0', '5', '9', '10', '99', '100', '101', '-1', '+7', '07', 'ab', 'a', 'abc', 'abcd', 'abcde', 'true', 'false', '1', '', '1 2', '1 2 3', '100 0', '101 1', 'x y',
-          '12.34', '1.234', '123.4', '12345', '0.10', '00012.30', '.5', '1e1', 'a b', '9' * 400, '012', '-' + '9' * 330, 'a b c d', 'ab cd ef', 'x', 'a\xa0b c', 'a\xa0b', 'a\u2003b c d', 'NaN', 'INF', '-INF', '10.5', '1e1', '0.0']
+          '12.34', '1.234', '123.4', '12345', '0.10', '00012.30', '.5', '1e1', 'a b', '9' * 400, '012', '-' + '9' * 330, 'a b c d', 'ab cd ef', 'x', 'a\xa0b c', 'a\xa0b', 'a\u2003b c d', 'NaN', 'INF', '-INF', '10.5', '1e1', '0.0', '2000-01-01', 'P1D', ' 05 ', '2000-01-02', 'P2D']
 
 
 def eval_derived(args):
     ver, name, v = args
     s = _S.setdefault(ver, derived_schema(ver))
-    t = v if name not in ('word', 'en', 'ien', 'qn23', 'qn2', 'tok23', 'ilist', 'ilist2', 'code3', 'price2', 'pt3', 'u', 'umix', 'small', 'smaller', 'money', 'durs', 'stamps', 'strs2', 'fmax', 'dpos') else re.sub(r' +', ' ', re.sub(r'[\t\n\r]', ' ', v)).strip(' ')
+    t = v if name not in ('word', 'en', 'ien', 'qn23', 'qn2', 'tok23', 'ilist', 'ilist2', 'code3', 'price2', 'pt3', 'u', 'umix', 'small', 'smaller', 'money', 'durs', 'stamps', 'strs2', 'fmax', 'dpos', 'uenum') else re.sub(r' +', ' ', re.sub(r'[\t\n\r]', ' ', v)).strip(' ')
     exp = REF[name](t)
     doc = f'<{name}>{v}</{name}>'
     try: got = s.is_valid(doc)
@@ -155,6 +158,15 @@ def eval_derived(args):
         # without typed decoding (datetime_types is off by default) dates and durations are reported as their normalised text, item by item
         d = s.decode(doc)
         if d != t.split(' '): out.update(ok=False, detail=f'list decoded {d!r}, the normalised item texts are {t.split(" ")!r}')
+    if got is True and exp and out['ok'] and name not in ('code3', 'price2', 'pt3', 'twoWords', 'lead', 'twoShort', 'twoShortA', 'smaller'):
+        # the value decoded from a valid text encodes again (strict), to a text that is valid and decodes to the same value (types whose pattern constrains the spelling
+        # of a number are left out: the number does not remember its spelling)
+        import xmlschema
+        try:
+            d = s.decode(doc); e = s.encode(d, path=name)
+            if not s.is_valid(e): out.update(ok=False, detail=f'decode -> encode gives {e.text!r}, invalid for the type')
+            elif s.decode(e) != d: out.update(ok=False, detail=f'decode -> encode -> decode gives {s.decode(e)!r}, not {d!r}')
+        except xmlschema.XMLSchemaException as x: out.update(ok=False, detail=f'the decoded value {d!r} does not encode: {type(x).__name__}: {str(x).splitlines()[0][:80] if str(x) else ""}')
     if got is True and exp and name == 'ilist' and t:
         d = s.decode(doc)
         if d != ([int(x) for x in t.split(' ')] if t else []): out.update(ok=False, detail=f'list decoded {d!r}')
